@@ -4,7 +4,7 @@
    model (carried by the block description, not axioms): verification of the consensus witness, admission
    of the transactions by the per-block scratch pool, execution of the block.
    [afix_none] = the code at the pinned commit, [afix_all] = with fixes/F35, F36 applied. *)
-From NG Require Import Common.Tactics Node.Accept Node.AcceptProofs.
+From NG Require Import Common.Tactics Node.Accept Node.AcceptProofs Node.AcceptPool Node.AcceptPoolProofs.
 Open Scope N_scope.
 
 (* accepted <=> the conjunction the property lists (next index; state-root setting; linked to the tip with a
@@ -66,3 +66,37 @@ Example C06_examples :
   add_block afix_all w_cfg w_st w_badbody = (VMerkle, mkState 1 11 100 0 [(12, 0)] [5; 6]) /\
   fst (add_block afix_all w_cfg (snd (add_block afix_all w_cfg w_st w_badbody)) w_valid) = VAccept.
 Proof. exact accept_examples. Qed.
+
+(* ---- acceptance and the node's own mempool over several blocks (Node/AcceptPool.v) ----
+   AddBlock takes a block transaction it finds in the node's mempool as verified.  With the refresh of
+   storeBlock evaluated AFTER the height moved to the stored block, and keeping only what a fresh
+   verification at that height admits, every pooled transaction is valid at every later moment ... *)
+Theorem C06_pool_sound : forall (tx_valid relevant : N -> N -> bool) (verify : bool),
+  (forall h t, relevant h t = true -> tx_valid h t = true) ->
+  forall ops n0, PoolOK tx_valid (prun tx_valid relevant verify true (n0, []) ops).
+Proof. exact pool_sound. Qed.
+Print Assumptions C06_pool_sound.
+
+(* ... so every transaction of an accepted block is valid at the time of the offer, pooled or not *)
+Theorem C06_pooled_valid_at_offer : forall (tx_valid relevant : N -> N -> bool) (verify : bool),
+  (forall h t, relevant h t = true -> tx_valid h t = true) ->
+  forall ops n0 txs, verify = true ->
+    let st := prun tx_valid relevant verify true (n0, []) ops in
+    block_ok tx_valid verify (fst st) (snd st) txs = true ->
+    forall t, In t txs -> tx_valid (fst st) t = true.
+Proof. exact pooled_valid_at_offer. Qed.
+Print Assumptions C06_pooled_valid_at_offer.
+
+(* refuted when the refresh is evaluated against the OLD height (a transaction with ValidUntilBlock = 2
+   pooled at height 1 survives block 2 and is accepted in block 3 although it is expired) ... *)
+Theorem C06_refresh_old_height_refuted :
+  prun wp_valid wp_valid true false (1, []) wp_ops = (3, []) /\ wp_valid 2 7 = false /\
+  prun wp_valid wp_valid true true (1, []) wp_ops = (2, []).
+Proof. exact refresh_old_height_refuted. Qed.
+Print Assumptions C06_refresh_old_height_refuted.
+
+(* ... and when the refresh re-checks less than a fresh verification does (F46: the Policy block list) *)
+Theorem C06_refresh_unsound_refuted :
+  prun wp_valid wp_relevant_weak true true (1, []) wp_ops = (3, []) /\ wp_valid 2 7 = false.
+Proof. exact refresh_unsound_refuted. Qed.
+Print Assumptions C06_refresh_unsound_refuted.
